@@ -353,6 +353,17 @@ impl VerifNotification {
         )
     }
 
+    /// The keys `(peer, outbound?)` of the handshake service's substream map in the order its
+    /// `poll_next` visits them.
+    pub fn negotiation_keys(&self) -> Vec<(PeerId, bool)> {
+        self.protocol.negotiation.verif_keys()
+    }
+
+    /// Substreams held by the handshake service plus completed handshakes it has not handed out.
+    pub fn negotiation_len(&self) -> usize {
+        self.protocol.negotiation.verif_len()
+    }
+
     /// Number of 5-second negotiation timers that are armed and have not fired.
     pub fn timers_len(&self) -> usize {
         self.protocol.timers.len()
